@@ -281,6 +281,38 @@ func (t *T) ecdsaSection() {
 	}
 	hs := []func() hash.Hasher{hash.NewSHA2_256, hash.NewSHA3_256, hash.NewSHA2_384, hash.NewKeccak_256}
 	for _, alg := range []crypto.SigningAlgorithm{crypto.ECDSAP256, crypto.ECDSASecp256k1} {
+		// decoded private scalars of every shape (small values, leading zero bytes followed by bytes with and
+		// without the top bit, single bits): encoding, size, printed form, re-decoding, public key
+		var shaped [][]byte
+		for _, v := range []int64{1, 2, 255, 256, 65535, 65536, 1 << 32, 1<<62 + 5} {
+			shaped = append(shaped, big.NewInt(v).FillBytes(make([]byte, 32)))
+		}
+		for z := 1; z <= 30; z += 2 {
+			for _, first := range []byte{0x01, 0x7f, 0x80, 0xff} {
+				b := rb(r, 32)
+				for j := 0; j < z; j++ {
+					b[j] = 0
+				}
+				b[z] = first
+				shaped = append(shaped, b)
+			}
+		}
+		for _, k := range []int{8, 63, 64, 127, 128, 191, 192, 247, 248, 250} {
+			b := make([]byte, 32)
+			b[31-k/8] = 1 << (k % 8)
+			shaped = append(shaped, b)
+		}
+		for _, b := range shaped {
+			sk, err := crypto.DecodePrivateKey(alg, b)
+			if err != nil {
+				t.line("ecdsa", "shaped-scalar/"+alg.String(), hx(b), errClass(err))
+				continue
+			}
+			enc := sk.Encode()
+			back, e2 := crypto.DecodePrivateKey(alg, enc)
+			eq := e2 == nil && back.Equals(sk)
+			t.line("ecdsa", "shaped-scalar/"+alg.String(), hx(b), fmt.Sprintf("%s/%d/%s/%v/%s/%s", hx(enc), sk.Size(), sk.String(), eq, hx(sk.PublicKey().Encode()), hx(sk.PublicKey().EncodeCompressed())))
+		}
 		for i := 0; i < n; i++ {
 			seed := rb(r, 32+r.IntN(100))
 			if i%2 == 1 {
